@@ -1745,7 +1745,9 @@ def _build_side_branch(w: World, main_packed: bool):
 
 
 def _fsck_bad(path: Path, env):
-    rc, out = core.sh(["git", "-C", str(path), "fsck", "--no-dangling", "--no-progress"], env=env, timeout=120)
+    # the object database only: stale commit-graph / multi-pack-index files written by an earlier `git gc` are C14's business
+    rc, out = core.sh(["git", "-C", str(path), "-c", "core.commitGraph=false", "-c", "core.multiPackIndex=false",
+                       "fsck", "--no-dangling", "--no-progress"], env=env, timeout=120)
     return {l for l in out.splitlines() if l.startswith(("missing", "broken link", "error", "fatal", "bad "))}
 
 
@@ -1886,8 +1888,12 @@ def stale_case(ctx, idx, stream="stale.maint", targeted=None):
                     view.append(f"0:{_enc_ids(sorted(w.n(h) for h in known.get(b, (set(), 0))[0]))}")
             view += [f"{packs0[b][1]}:{_enc_ids(sorted(w.n(h) for h in packs0[b][0]))}" for b in order if b not in cached]
             args = _model_state_args(w, loose0, packs0, order, alt_ids)
-            mline = f"c10.stepv {args} {';'.join(view) or '-'} {MODEL_OP[opk]} {'none' if g is None else g} {now}"
             n_stale = sum(1 for b in cached if b not in packs0)
+            stale_ids = sorted({w.n(h) for b in cached if b not in packs0 for h in known.get(b, (set(), 0))[0]})
+            tail = f"{MODEL_OP[opk]} {'none' if g is None else g} {now}"
+            mline = f"c10.stepv {args} {';'.join(view) or '-'} - {tail}"
+            # prune's walk may still read objects of vanished packs that stay mapped: second line = all of them readable
+            mline2 = f"c10.stepv {args} {';'.join(view) or '-'} {_enc_ids(stale_ids)} {tail}" if (opk == "prune" and stale_ids) else None
             try:
                 run_real_op(w, repo, op)
                 exc = None
@@ -1915,7 +1921,7 @@ def stale_case(ctx, idx, stream="stale.maint", targeted=None):
                     ctx.oracle_fail(stream, dict(case, git_missing=miss[:5], fsck=sorted(new_bad)[:5]),
                                     f"C git no longer finds reachable objects after {opk}(grace={g}) from a long-lived handle: "
                                     f"{(miss or sorted(new_bad))[0]}", None)
-            recs.append((mline, case, _canon_real(w, loose1, packs1), exc, PackFileDisappeared))
+            recs.append((mline, case, _canon_real(w, loose1, packs1), exc, PackFileDisappeared, mline2))
             known.update(packs1)
     finally:
         repo.close()
@@ -1925,17 +1931,30 @@ def stale_case(ctx, idx, stream="stale.maint", targeted=None):
 
 
 def _compare_stale(ctx, recs, stream):
-    consts = _consts(ctx)
-    outs = ctx.driver.batch([r[0] for r in recs])
-    for (mline, case, real_state, exc, PFD), o in zip(recs, outs):
+    lines = []
+    for r in recs:
+        lines.append(r[0])
+        lines.append(r[5] or r[0])
+    outs = ctx.driver.batch(lines)
+    for i, (mline, case, real_state, exc, PFD, mline2) in enumerate(recs):
+        o, o2 = outs[2 * i], outs[2 * i + 1]
         ctx.count(stream + ".model", (case["case"], case["step"], real_state), True)
-        parts = o.split("|raised=")
-        if len(parts) != 2:
+        parts, parts2 = o.split("|raised="), o2.split("|raised=")
+        if len(parts) != 2 or len(parts2) != 2:
             ctx.disagree(stream + ".model", dict(case, line=mline[:500]), o, real_state)
             continue
         real_raised = "1" if isinstance(exc, PFD) else ("0" if exc is None else type(exc).__name__)
-        if parts[0] != real_state or parts[1] != real_raised:
-            ctx.disagree(stream + ".model", dict(case, line=mline[:500]), o, f"{real_state}|raised={real_raised}")
+        ok = parts[0] == real_state and parts[1] == real_raised
+        if not ok and mline2 is not None and parts[1] == parts2[1] == real_raised:
+            # between the two bounds: loose(model, nothing stale readable) <= loose(real) <= loose(model, all stale readable)
+            def split(st):
+                lo, pk = st.split("|P=")
+                return set(lo[2:].split(",")) - {"-", ""}, pk
+            (l1, p1), (l2, p2), (lr, pr) = split(parts[0]), split(parts2[0]), split(real_state)
+            ok = p1 == p2 == pr and l1 <= lr <= l2
+        if not ok:
+            ctx.disagree(stream + ".model", dict(case, line=mline[:500]), o + (" .. " + o2 if mline2 else ""),
+                         f"{real_state}|raised={real_raised}")
 
 
 def _stream_stale(ctx, ncases, stream="stale.maint", first_idx=0):
@@ -2004,7 +2023,7 @@ def run(ctx: core.Ctx):
         _stream_retry_bound(ctx)
         _stream_git_repack(ctx, 20)
     else:
-        _stream_sched(ctx, ctx.budget(12), 2, 110, 10)
+        _stream_sched(ctx, ctx.budget(10), 2, 110, 10)
         _stream_retry_bound(ctx)
         _stream_git_repack(ctx, 2)
 
